@@ -29,7 +29,9 @@ lane() {
 }
 for i in $(seq 0 $((lanes-1))); do lane $i & done
 wait
-cat $work/out.* | sort > /verif/seeded/REGRESSION.txt
+# a full run rewrites REGRESSION.txt; a run restricted by a pattern writes REGRESSION-partial.txt
+outf=/verif/seeded/REGRESSION.txt; [ "$pat" = "." ] || outf=/verif/seeded/REGRESSION-partial.txt
+cat $work/out.* 2>/dev/null | sort > $outf
 rm -rf $work
-echo "detected: $(grep -c 'rc=1' /verif/seeded/REGRESSION.txt) / $(wc -l < /verif/seeded/REGRESSION.txt)"
-grep -v 'rc=1' /verif/seeded/REGRESSION.txt
+echo "detected: $(grep -c 'rc=1' $outf) / $(wc -l < $outf)"
+grep -v 'rc=1' $outf
